@@ -56,6 +56,7 @@ fn escape_js_filter(value: &Value, _args: &HashMap<String, Value>) -> tera::Resu
         let escaped = s
             .replace('\\', "\\\\") // Backslash must be first
             .replace('"', "\\\"") // Escape double quotes
+            .replace('\'', "\\'") // ... and single quotes, for single-quoted literals
             .replace('\n', "\\n") // Escape newlines
             .replace('\r', "\\r") // Escape carriage returns
             .replace('\t', "\\t"); // Escape tabs
